@@ -20,13 +20,13 @@ DESIGN_REF = "DESIGN.md §4 C02"
 LEVEL_TEXT = (
     "Every sampler (passive: ideal / loss / post-selection / distinguishability / subsets / dask; Gaussian: particle number, "
     "threshold with hafnian and torontonian, homodyne, heterodyne, general-dyne; pure and mixed Fock: particle number on "
-    "subsets, homodyne; fermionic) is run with 4000 (quick) or 40000 (thorough) shots on generated states; every sample must "
+    "subsets, homodyne; fermionic) is run with 2500 (quick) or 40000 (thorough) shots on generated states; every sample must "
     "lie in the support of the exact law with the right arity and order, and the empirical law must pass chi-square / moment / "
     "KS tests at alpha=1e-10, a failure being reported only if a confirmation run with a fresh seed and 4x the shots fails at "
     "alpha=1e-6."
 )
 LEVEL_NOTE = (
-    "A distributional law is only tested statistically: with 4000 shots total-variation distances of about 0.08 are resolved, "
+    "A distributional law is only tested statistically: with 2500 shots total-variation distances of about 0.1 are resolved, "
     "with 40000 about 0.025. Truncation of the Gaussian particle-number sampler (measurement_cutoff) is kept below 1e-6 by "
     "construction of the workload."
 )
@@ -118,7 +118,7 @@ def judge_discrete(ctx, pq, doc, law, kind, cls, shots, seed, arity, mech_prefix
     ctx.c["support_checks"] += 1
     if res["support_violations"]:
         o = res["support_violations"][0]
-        ctx.viol("%s-outcome-outside-support" % mech_prefix, "%s: outcome %s was sampled %d time(s) but has exact probability %.3e" % (kind, o, cnt[o], law.get(o, 0.0)), case)
+        ctx.viol(mech_prefix if mech_prefix.endswith("hbar-normalisation") else "%s-outcome-outside-support" % mech_prefix, "%s: outcome %s was sampled %d time(s) but has exact probability %.3e" % (kind, o, cnt[o], law.get(o, 0.0)), case)
         return
     if len([p for p in law.values() if p > 1e-9]) < 2:
         ctx.classes.add(cls + "|deterministic")
@@ -142,7 +142,7 @@ def judge_discrete(ctx, pq, doc, law, kind, cls, shots, seed, arity, mech_prefix
         r2 = S.chi_square(counts_of(s2), law, len(s2))
         if r2["p_value"] < S.ALPHA_CONFIRM:
             worst = max(law, key=lambda o: abs(counts_of(s2).get(o, 0) / len(s2) - law[o]))
-            ctx.viol("%s-law-differs" % mech_prefix,
+            ctx.viol(mech_prefix if mech_prefix.endswith("hbar-normalisation") else "%s-law-differs" % mech_prefix,
                      "%s: empirical law differs from the exact one (chi-square p=%.1e with %d shots, p=%.1e in the confirmation run with %d; TV %.3f; "
                      "e.g. outcome %s: exact %.4f, observed %.4f)" % (kind, res["p_value"], shots, r2["p_value"], len(s2), r2["tv"], worst, law[worst],
                                                                       counts_of(s2).get(worst, 0) / len(s2)), case)
@@ -299,7 +299,7 @@ def gaussian_state_doc(rng, d, hbar, small=True):
             ins.append({"t": "Displacement", "m": [m], "p": {"r": float(rng.uniform(0.0, 0.5 if small else 1.0)), "phi": G.angle(rng)}})
     for _ in range(int(rng.integers(1, 3))):
         ins.append(G.gate(rng, str(rng.choice(["Interferometer", "Beamsplitter"])), d))
-    return ins
+    return [i for i in ins if i is not None]
 
 
 def wl_gaussian_discrete(ctx, pq, rng, shots):
@@ -335,7 +335,11 @@ def wl_gaussian_discrete(ctx, pq, rng, shots):
     mt = "ParticleNumberMeasurement" if kind == "pnm" else "ThresholdMeasurement"
     doc = {"sim": "gaussian", "d": d, "config": cfg, "ins": ins + [{"t": mt, "m": modes, "p": {}}], "shots": shots}
     cls = "gaussian|%s|d%d|k%d|h%s|%s" % (kind, d, k, hbar, G.mode_pattern(modes))
-    judge_discrete(ctx, pq, doc, law, "gaussian/" + kind, cls, shots if kind != "pnm" else min(shots, 3000), int(rng.integers(1, 2 ** 31)), k, "gaussian-" + kind)
+    prefix = "gaussian-" + kind
+    if kind == "pnm" and hbar != 2.0:
+        # known defect: the particle-number sampler normalises mean/covariance as if hbar were 2
+        prefix = "gaussian-particle-number-sampling-hbar-normalisation"
+    judge_discrete(ctx, pq, doc, law, "gaussian/" + kind, cls, shots if kind != "pnm" else min(shots, 1500), int(rng.integers(1, 2 ** 31)), k, prefix)
 
 
 def wl_gaussian_dyne(ctx, pq, rng, shots):
@@ -510,7 +514,7 @@ def wl_fock_homodyne(ctx, pq, rng, shots):
     ins = [i for i in ins if i is not None]
     k = int(rng.integers(1, d + 1))
     modes = G.ordered_subset(rng, d, k)
-    phi = G.angle(rng) if rng.random() < 0.5 else 0.0
+    phi = 0.0  # a rotated homodyne angle is explicitly "not yet supported" on the pure Fock simulator
     cfg = {"cutoff": cutoff, "hbar": hbar}
     s, p = G.build_adaptive(pq, {"sim": "purefock", "d": d, "config": cfg, "ins": ins, "shots": 1})
     state = s.execute(p).state
@@ -561,8 +565,8 @@ def plan(tier, seed):
     idx = 0
     for name, _, nshards in WORKLOADS:
         for j in range(nshards):
-            specs.append({"name": "%s-%d" % (name, j), "workload": name, "shard": idx, "cases": 8 if tier == "quick" else 40,
-                          "shots": 4000 if tier == "quick" else 40000,
+            specs.append({"name": "%s-%d" % (name, j), "workload": name, "shard": idx, "cases": 6 if tier == "quick" else 40,
+                          "shots": 2500 if tier == "quick" else 40000,
                           "env": {"OPENBLAS_NUM_THREADS": "1", "OMP_NUM_THREADS": "2", "NUMBA_NUM_THREADS": "2"}})
             idx += 1
     return specs
